@@ -119,7 +119,7 @@ Definition sinit : sst := [].
 Definition scope (s : sst) (o : op) : sst :=
   match o with
   | OScaled v => if mag_le v 11 then [] else [CL_NEAR]
-  | ODecimal k d => if Z.abs k <=? 10 ^ (11 + d) then [] else [CL_NEAR]
+  | ODecimal k d => if (0 <=? d) && (Z.abs k <=? 10 ^ (11 + d)) then [] else [CL_NEAR]
   | ODuration ns => if Z.abs ns <? DUR_LIMIT then [] else [CL_DURATION]
   | OInstant _ _ => []
   | ORelEnd variant dur t0 t1 =>
